@@ -11,6 +11,7 @@ import warnings
 import numpy as np
 import pandas as pd
 
+from . import core
 from .core import Prop, f2h, h2f, close
 
 SOURCES = [
@@ -275,7 +276,7 @@ def gen_gamma(rng):
 class C09(Prop):
     ID = "C09"
     SOURCES = SOURCES
-    LEAN_MODULES = ["Proofs.C09"]
+    LEAN_MODULES = ["Proofs.C09", "Proofs.BridgeC09"]
     THEOREMS = [f"PylifeVerif.C09.{t}" for t in [
         "pram_curve_inverse", "pram_branch_consistency", "pram_continuous", "pram_strictAnti_finite",
         "pram_infinite_below_endurance",
@@ -284,7 +285,12 @@ class C09(Prop):
         "pRAM_formula", "constants_eq_guideline", "pRAM_group_formula",
         "rowD_nonneg", "early_failure_index", "lifetime_eq_accumulation", "lifetime_eq_accumulation_rows",
         "isLifeInfinite_iff",
-        "getBeta_table", "gammaL_formulas", "beta_is_neg_quantile_partial"]]
+        "getBeta_table", "gammaL_formulas", "beta_is_neg_quantile_partial"]] + [
+        f"PylifeVerif.Bridge.{t}" for t in [      # generated (translated) definitions = hand model
+        "pram_fatigue_strength_limit_eq", "pram_fatigue_life_limit_eq", "pram_calc_N_eq", "pram_calc_P_RAM_eq",
+        "praj_limits_eq", "praj_calc_N_eq", "praj_calc_N_explicit_eq", "praj_calc_P_RAJ_eq",
+        "beta_table_eq", "get_beta_eq", "gamma_L_normal_eq", "gamma_L_lognormal_eq", "gamma_L_blanket_eq",
+        "constants_eq", "constants_keys_complete"]]
     PARTIAL = {
         "PylifeVerif.C09.beta_is_neg_quantile_partial":
             "proved for an abstract strictly increasing (and symmetric) Phi: the residual |Phi(x) - P_A| vanishes exactly at the "
@@ -314,6 +320,28 @@ class C09(Prop):
         "C09: gamma_L takes beta from the tabulated list (_get_beta, np.isclose matching), not from compute_beta - modelled as coded",
         "C09: P_RAJ damage parameter row function (crack opening loop) and DamageCalculatorPRAJ are not modelled here (C10 treats the P_RAJ pipeline by oracle)",
     ]
+
+    # tie T (DESIGN 1.1): lean/Generated/<name>.lean are regenerated from the current python source before the build;
+    # Proofs.BridgeC09 proves them equal to the hand model the property theorems are about
+    TRANSLATED = ["WoehlerFkmNonlinear", "FkmLoadDistribution", "FkmConstants"]
+
+    def setup(self, log):
+        import os
+        import sys
+        tdir = os.path.join(core.VERIF, "translate")
+        sys.path.insert(0, tdir)
+        try:
+            import translate as T
+            ok, msg = T.run_modules(self.TRANSLATED, core.REPO, core.LEAN)
+        except Exception as e:      # the translator itself is broken: every bridge obligation counts as broken
+            ok, msg = False, f"translator crashed: {type(e).__name__}: {e}"
+            for n in self.TRANSLATED:
+                with open(os.path.join(core.LEAN, "Generated", n + "Status.lean"), "w") as f:
+                    f.write('#eval (throw (IO.userError "translator crashed") : IO Unit)\n')
+        finally:
+            sys.path.remove(tdir)
+        self.stats["translator"] = msg
+        log(("translator: " + msg) if ok else ("TRANSLATOR FAILED (broken proof obligation): " + msg))
 
     def __init__(self):
         self.stats = {}
